@@ -285,6 +285,23 @@ Definition op_sxg_history (args : list sx) : sx :=
   end.
 
 Definition is_undecided (m : sx) : bool := sx_eqb m unknown_sx.
+(* sxg_read_verify_seq bytes tsec tnsec statustab (fetchtab...) x509tab sigtab : one exchange
+   verified with a sequence of fetchers; every verdict depends on its own fetch only *)
+Definition op_sxg_read_verify_seq (args : list sx) : sx :=
+  match args with
+  | [SB bs; SZ tsec; SZ tnsec; SL sk; SL fts; SL xt; SL st] =>
+      match read bs with
+      | Ok e =>
+          let known := fun code => existsb (fun s => match s with SL [SZ c; SZ b] => (c =? code)%Z && negb (b =? 0)%Z | _ => false end) sk in
+          if e_taint e then unknown_sx else
+          SL (map (fun ft => match ft with
+                             | SL f => verdict_sx (verify sha256 (x509_of xt) (sig_of st) known (fetch_of f) e tsec tnsec)
+                             | _ => bad_args end) fts)
+      | _ => SL [sym "invalid"]
+      end
+  | _ => bad_args
+  end.
+
 (* sxg_read_verify_history bytes tsec tnsec statustab fetchtab x509tab sigtab:
    ReadExchange, Verify, Verify again, Write.  Verify must not change the exchange. *)
 Definition op_sxg_read_verify_history (args : list sx) : sx :=
@@ -330,6 +347,7 @@ Definition dispatch_sxg (op : bytes) (args : list sx) : option sx :=
   else if bytes_eqb op (s2b "sxg_read_verify") then Some (op_sxg_read_verify args)
   else if bytes_eqb op (s2b "sxg_read_edit_verify") then Some (op_sxg_read_edit_verify args)
   else if bytes_eqb op (s2b "sxg_history") then Some (op_sxg_history args)
+  else if bytes_eqb op (s2b "sxg_read_verify_seq") then Some (op_sxg_read_verify_seq args)
   else if bytes_eqb op (s2b "sxg_verdict_roundtrip") then Some (op_sxg_verdict_roundtrip args)
   else if bytes_eqb op (s2b "sxg_read_verify_history") then Some (op_sxg_read_verify_history args)
   else if bytes_eqb op (s2b "bigendian") then Some (op_bigendian args)
